@@ -1224,7 +1224,7 @@ class Interp:
         # soundness of the loop cut: containers mutated in place by the body must be havocked too
         for name in mutated_names(s.body):
             e = env.find(name)
-            if e is not None and isinstance(e.vars[name], (list, set, dict)) and name not in spec.shapes and name not in targets:
+            if e is not None and isinstance(e.vars[name], (list, set, dict)) and name not in {getattr(spec, "alias", {}).get(k, k) for k in spec.shapes} and name not in targets:
                 raise Unsupported(f"loop {lname} mutates container {name!r} in place; its loop contract must give a shape for it")
         spec.havoc(self, env, targets, lname)
         spec.assume(self, env, lname)
